@@ -186,6 +186,16 @@ def r1_operator_coherence(cx):
             ok = bool(got) == expect(s) and isinstance(got, bool)
             cx.require(ok, m.get("InstalledRpm." + name), "%s(a, b) is %s when rpm_version_compare(a, b) has sign %+d" % (name, expect(s), s),
                        construct="%s | sign %+d -> %r" % (name, s, got))
+    # the sign interpretation above takes 'other is a package' for granted: the type test must accept every package class, i.e. name the class
+    # that defines the ordering (a test against type(self) / self.__class__ makes a subclass instance and a base instance mutually unordered)
+    for name in sorted(OPS):
+        if name not in defined:
+            continue
+        fn_ = m.get("InstalledRpm." + name)
+        for c_ in [x for x in ast.walk(fn_) if isinstance(x, ast.Call) and call_name(x) == "isinstance" and len(x.args) == 2]:
+            k_ = c_.args[1]
+            names_ = [U(e_) for e_ in k_.elts] if isinstance(k_, ast.Tuple) else [U(k_)]
+            cx.require(cls.name in names_, c_, "%s accepts every %s (sub)class instance as the other operand" % (name, cls.name), construct=short(c_, 80))
     eq = m.func("InstalledRpm.__eq__", "C13.R1")
     rs = [r for r in walk_body(eq.body) if isinstance(r, ast.Raise)]
     ok = bool(rs) and ("self.name != other.name", True) in guard_texts(rs[0]) or bool(rs) and ("self.name == other.name", False) in guard_texts(rs[0])
